@@ -18,7 +18,7 @@ EXPLANATION = (
     "between instances (no writes to module globals or class attributes, no mutable default arguments) in seeded classes. "
     "NOT decided: bit-equality of GP fits across processes; run-time independence of instances.")
 
-FLOOR = {"S1": 3, "S2": 3, "S3": 3, "S4": 2, "S5": 1}
+FLOOR = {"S1": 3, "S2": 3, "S3": 3, "S4": 2, "S5": 1, "S6": 3}
 
 DRAWS = {"rand", "randn", "randint", "random", "random_sample", "choice", "uniform", "normal", "shuffle", "permutation", "beta",
          "binomial", "sample", "gamma", "poisson", "exponential", "multivariate_normal", "standard_normal", "bytes", "randrange",
@@ -472,3 +472,11 @@ def run(ctx, rep, tier="quick"):
     s3(ctx, rep)
     s4(ctx, rep, tier == "thorough")
     s5(ctx, rep)
+    # S6 simulated experiments: a fixed backend seed (0 included) is used for every trial, a per-trial seed is drawn once
+    # and kept (shared with C10-S3)
+    from . import c10
+    sub = type(rep)(rep.prop)
+    c10.s3(ctx, sub)
+    for i in sub.items:
+        i.clause = "S6"
+        rep.items.append(i)
